@@ -259,6 +259,11 @@ def check(v, tier, opts):
         value_law(v, E, fn, tier)
     except (ExecError, MirError) as e:
         v.inconcl(f"cannot encode TimeDelta::parse: {e}")
+    try:
+        if not opts.get("only") or "datetime" in opts.get("only"):
+            datetime_text(v, E, tier)
+    except (ExecError, MirError) as e:
+        v.inconcl(f"cannot encode DateTime::strftime / DateTime::parse: {e}")
     finally:
         v.solver_time += E.solver.time
         v.engines["mir2smt"].update({"queries": E.solver.queries, "answers": E.solver.stats})
@@ -268,14 +273,138 @@ def check(v, tier, opts):
                  "numbers of 1-2 symbolic digits, sign in {none,-,+}, all ten units"]
     v.assumptions += ["std string function specifications (15 one-liners in lib/mir_engine/natives_str.py)",
                       "chrono::Duration == exact nanosecond count within +-i64::MAX milliseconds; seconds()/nanoseconds()/+ per chrono docs"]
-    v.outside += ["DateTime::parse / FromStr / strftime round trip and Time::parse (chrono's format interpreter: no usable contract)",
+    v.outside += ["DateTime::parse on text that is not of the shape of a listed format (arbitrary bytes, other field widths, signs, extra "
+                  "whitespace), Time::parse, and chrono's format interpreter itself (replaced by the contract model of chrono_fmt.py)",
                   "non-ASCII input (multi-byte characters only shift byte indices)", "strings longer than the bound; numbers with more than 18 digits"]
     v.samples.append({"check": "totality", "length": 2, "query": "exists b0,b1 in 0..127: path condition of `unwrap` on Err of str::parse::<i64>(s[0..1])"})
-    return v.finish(RULE)
+    return v.finish(RULE + DT_RULE)
+
+
+DT_RULE = ("; DateTime<U>::strftime and DateTime<U>::parse are executed from their MIR for each of the four units with chrono's format "
+           "interpreter replaced by a contract model (format items, scan::number, Parsed range checks, proleptic Gregorian calendar): (3) "
+           "round trip — z3 is asked for a date-time of 1678..2262 (symbolic year, month, day, hour, minute, second and fraction digits) "
+           "whose default-format text, or whose text in a listed format that prints all its non-zero fields, is rejected or parses to "
+           "another instant; (4) totality on templates — every digit string of the shape of each listed format, parsed under the rule "
+           "list and under that format: no satisfiable path to a panic; the model is first compared with the real chrono on concrete texts")
+
+
+def datetime_text(v, E, tier):
+    import random
+    from mir_engine import time_ops as T
+    tf = T.find_text_fns(E)
+    rules = T.rule_list(E)
+    v.functions.update(["tea_time::DateTime::strftime (MIR " + tf["strftime"].name + ")", "tea_time::DateTime::parse (MIR " + tf["parse"].name + ")",
+                        "tea_time TIME_RULE_VEC (read from the MIR), From<NaiveDateTime> / From<NaiveDate> / From<chrono::DateTime<Utc>> for DateTime<U>"])
+    rng = random.Random(1818 + seed())
+    nval = 0
+    for unit in T.UNITS:
+        n, bad = T.validate_text(E, tf, unit, rules, rng)
+        nval += n
+        v.evaluations += n
+        for b in bad[:3]:
+            v.inconcl("format model disagrees with the real code + real chrono on a concrete text: " + b)
+    log(f"  [M] format-model validation: {nval} concrete format / parse runs compared with the real chrono")
+    CL = {"Second": ["zero"], "Millisecond": ["zero", "milli"], "Microsecond": ["zero", "milli", "micro"],
+          "Nanosecond": ["zero", "milli", "micro", "nano"]}
+    t0 = time.time()
+    nrt = nbad = 0
+    for unit in T.UNITS:
+        fmts = [None] + (rules if (tier == "thorough" or unit == "Millisecond") else [])
+        for fmt in fmts:
+            classes = CL[unit] if (fmt is None or "nano" in T.printed_fields(fmt)) else ["zero"]
+            if tier == "quick" and fmt is not None:
+                classes = classes[-1:]
+            for cls in classes:
+                hname = f"dt_roundtrip_{T.SHORT[unit]}_{'default' if fmt is None else rules.index(fmt)}_{cls}"
+                try:
+                    dom, run, qs, V, wit, n, gaps = T.check_text_roundtrip(E, tf, unit, cls, fmt)
+                except ExecError as e:
+                    v.inconcl(f"{hname}: cannot encode ({e})")
+                    continue
+                nq, fails, unk = T.ask_all(E, dom, run, qs, wit)
+                for c, w in gaps:
+                    nq += 1
+                    if E.ask(dom + run.ex.assumptions + [c])[0] != "unsat":
+                        unk.append("outside the format model but reachable: " + w)
+                v.evaluations += nq
+                nrt += 1
+                for u in unk[:2]:
+                    v.inconcl(f"{hname}: {u}")
+                for msg, model in fails[:1]:
+                    key = f"{hname}::{msg}"
+                    if v.is_known(key):
+                        v.note_known(key)
+                        continue
+                    nbad += 1
+                    ts = T.model_ts(unit, model)
+                    txt, got = T.native_text(unit, ts, fmt)
+                    path = save(hname, {"property": "C18", "kind": "dt_roundtrip", "unit": unit, "timestamp": ts, "format": fmt,
+                                        "native_text": txt, "native_parse": got, "solver_message": msg})
+                    if got != f"R {ts}":
+                        v.failure(key, path, f"DateTime<{unit}>({ts}).strftime({fmt!r}) = {txt!r} parses back to '{got[:80]}'")
+                    else:
+                        v.inconcl(f"{hname}: solver counterexample ts={ts} does not reproduce natively; case {path}")
+                if not fails and not unk:
+                    v.nontrivial += 1
+    log(f"  [M] date-time text round trip: {nrt} (unit, format, fraction class) encodings, {nbad} with a new counterexample, {time.time() - t0:.1f}s")
+    t0 = time.time()
+    ntot = nbad = 0
+    for unit in T.UNITS:
+        for i, fmt in enumerate(rules):
+            for wl in (True, False):
+                if tier == "quick" and not wl and unit not in ("Nanosecond",):
+                    continue
+                hname = f"dt_parse_total_{T.SHORT[unit]}_{i}_{'rules' if wl else 'own'}"
+                try:
+                    dom, run, qs, dv, bs = T.check_parse_total(E, tf, unit, fmt, wl)
+                except ExecError as e:
+                    v.inconcl(f"{hname}: cannot encode ({e})")
+                    continue
+                nq, fails, unk = T.ask_all(E, dom, run, qs)
+                v.evaluations += nq + 1
+                ntot += 1
+                for u in unk[:2]:
+                    v.inconcl(f"{hname}: {u}")
+                for msg, model in fails[:1]:
+                    key = f"{hname}::{msg}"
+                    if v.is_known(key):
+                        v.note_known(key)
+                        continue
+                    nbad += 1
+                    txt = T.template_text(bs, model)
+                    got = T.native_parse(unit, None if wl else fmt, txt)
+                    path = save(hname, {"property": "C18", "kind": "dt_parse", "unit": unit, "format": None if wl else fmt, "input": txt,
+                                        "native": got, "solver_message": msg})
+                    if got.startswith("PANIC"):
+                        v.failure(key, path, f"DateTime::<{unit}>::parse({txt!r}, {None if wl else fmt!r}) panics: {got[6:120]}")
+                    else:
+                        v.inconcl(f"{hname}: solver path to a panic with input {txt!r} does not panic natively ({got}); case {path}")
+                if not fails and not unk:
+                    v.nontrivial += 1
+    log(f"  [M] DateTime::parse totality on format-shaped digit strings: {ntot} (unit, format, mode) encodings, {nbad} with a new counterexample, {time.time() - t0:.1f}s")
+    v.bounds += ["date-time round trip: every date-time of 1678-01-01 .. 2262-01-01 at each unit; default format: every fraction class of the unit; "
+                 "listed formats: date-times whose fields the format does not print are zero; quick: all listed formats for the ms unit "
+                 "(largest fraction class), thorough: all units and classes",
+                 "DateTime::parse totality: every digit string of the shape of each of the listed formats (field widths as printed), seconds "
+                 "field below 60; quick: under the rule list for all units, under the format itself for ns; thorough: both for all units"]
+    v.assumptions += ["chrono's strftime / parse_from_str replaced by the contract model lib/mir_engine/chrono_fmt.py (specifiers %Y %y %m %d %H %M %S %f "
+                      "%.f %.3f %.6f %.9f %3f %6f %9f %T %F %D %R, literals, whitespace; scan::number greedy up to the field width; Parsed range "
+                      f"checks; second 60 excluded), compared with the real chrono on {nval} concrete format / parse runs per check run"]
 
 
 def replay_file(path):
     c = json.load(open(path))
+    if c["kind"] in ("dt_roundtrip", "dt_parse"):
+        from mir_engine import time_ops as T
+        if c["kind"] == "dt_roundtrip":
+            txt, got = T.native_text(c["unit"], c["timestamp"], c["format"])
+            bad = got != f"R {c['timestamp']}"
+            log(("REPRODUCED " if bad else "passes ") + f"{path}: DateTime<{c['unit']}>({c['timestamp']}) -> {txt!r} -> {got}")
+        else:
+            got = T.native_parse(c["unit"], c["format"], c["input"])
+            bad = got.startswith("PANIC")
+            log(("REPRODUCED " if bad else "passes ") + f"{path}: DateTime::<{c['unit']}>::parse({c['input']!r}, {c['format']!r}) -> {got}")
+        return 1 if bad else 0
     got = native_parse(c["input"])
     if c["kind"] == "totality":
         bad = got.startswith("PANIC")
